@@ -36,6 +36,40 @@ package runner
 //@   ensures[kept] len(result) >= len(target) && forall(r, 0, len(target), result[r] == target[r])
 //@   ensures[global-scope] forall(r, len(target), len(result), result[r].Scope == utils.ScopeGlobal)
 
+// The diagnosis plugins of a transaction are selected like its remedies (each scoped diagnosis is a fresh object).
+//@ func appendEndpointDiagnoses
+//@   prop C13
+//@   allocates ScopedDiagnosis
+//@   modifies asrc, apos
+//@   loop 1 modifies asrc, apos
+//@   loop 1 do asrc[len(target) - 1] = ite(source[idx1-1].Enabled, idx1 - 1, asrc[len(target) - 1]); apos[idx1-1] = len(target) - 1
+//@   loop 1 invariant[kept] len(target) >= old(len(target)) && forall(r, 0, old(len(target)), target[r] == old(target)[r])
+//@   loop 1 invariant[only-enabled-of-this-endpoint] forall(r, old(len(target)), len(target), target[r] != nil && allocated(target[r]) && !allocated_at_entry(target[r]) && target[r].Scope == utils.ScopeEndpoint && target[r].Method == method && target[r].NormalizedURL == normalizedURL && 0 <= asrc[r] && asrc[r] < idx1 && source[asrc[r]].Enabled && target[r].Diagnosis == &source[asrc[r]])
+//@   loop 1 invariant[every-enabled] forall(i, 0, idx1, source[i].Enabled ==> old(len(target)) <= apos[i] && apos[i] < len(target) && target[apos[i]] != nil && allocated(target[apos[i]]) && target[apos[i]].Diagnosis == &source[i])
+//@   ensures[kept] len(result) >= len(target) && forall(r, 0, len(target), result[r] == target[r])
+//@   ensures[only-enabled-of-this-endpoint] forall(r, len(target), len(result), result[r] != nil && !allocated_at_entry(result[r]) && result[r].Scope == utils.ScopeEndpoint && result[r].Method == method && result[r].NormalizedURL == normalizedURL && 0 <= asrc[r] && asrc[r] < len(source) && source[asrc[r]].Enabled && result[r].Diagnosis == &source[asrc[r]])
+//@   ensures[every-enabled] forall(i, 0, len(source), source[i].Enabled ==> len(target) <= apos[i] && apos[i] < len(result) && result[apos[i]] != nil && result[apos[i]].Diagnosis == &source[i])
+
+//@ func appendGlobalDiagnoses
+//@   prop C13
+//@   allocates ScopedDiagnosis
+//@   modifies nothing
+//@   loop 1 modifies nothing
+//@   loop 1 invariant[kept] len(target) >= old(len(target)) && forall(r, 0, old(len(target)), target[r] == old(target)[r])
+//@   loop 1 invariant[global-scope] forall(r, old(len(target)), len(target), target[r] != nil && allocated(target[r]) && !allocated_at_entry(target[r]) && target[r].Scope == utils.ScopeGlobal)
+//@   ensures[kept] len(result) >= len(target) && forall(r, 0, len(target), result[r] == target[r])
+//@   ensures[global-scope] forall(r, len(target), len(result), result[r] != nil && !allocated_at_entry(result[r]) && result[r].Scope == utils.ScopeGlobal)
+
+// A diagnosis declared for an endpoint is applied to a transaction only if the method is the declared one and the pattern
+// it was declared on is the pattern the trie matched for the URL.
+//@ func getDiagnoses
+//@   prop C13
+//@   requires policyTree != nil && polValues() && polOwn()
+//@   allocates ScopedDiagnosis
+//@   modifies asrc, apos
+//@   ensures[endpoint-diagnoses-only-for-declared-method-and-pattern] forall(r, 0, len(result), result[r] != nil && (result[r].Scope == utils.ScopeEndpoint ==> best(pdecl, url) != "" && in(urltree.Method(methodStr), *pval[best(pdecl, url)]) && pkey((*pval[best(pdecl, url)])[urltree.Method(methodStr)].URL) == best(pdecl, url) && result[r].Method == methodStr && exists(i, 0, len((*pval[best(pdecl, url)])[urltree.Method(methodStr)].Diagnosis), (*pval[best(pdecl, url)])[urltree.Method(methodStr)].Diagnosis[i].Enabled && result[r].Diagnosis == &(*pval[best(pdecl, url)])[urltree.Method(methodStr)].Diagnosis[i])))
+//@   ensures[every-enabled-endpoint-diagnosis] best(pdecl, url) != "" && in(urltree.Method(methodStr), *pval[best(pdecl, url)]) ==> forall(i, 0, len((*pval[best(pdecl, url)])[urltree.Method(methodStr)].Diagnosis), (*pval[best(pdecl, url)])[urltree.Method(methodStr)].Diagnosis[i].Enabled ==> exists(r, 0, len(result), result[r] != nil && result[r].Diagnosis == &(*pval[best(pdecl, url)])[urltree.Method(methodStr)].Diagnosis[i]))
+
 // A remedy declared for an endpoint is applied to a request only if the request's method is the declared one and the
 // pattern it was declared on is the pattern the trie matched for the request's URL.
 //@ func getRemedies
